@@ -21,7 +21,7 @@ EXTENDS Integers, Sequences, FiniteSets, TLC
 CONSTANT Quirks   \* named deviations of the code: "urns_flag_overwrite", "name_compare_untruncated", "archived_group_add"
 
 Names    == {"", "bob", "LONG", "LONGNAME"}
-Vals     == {"", "v", "LONG", "LONGNAME"}
+Vals     == {"", "v", "LONG", "LONGNAME", " "}     \* " ": a value of white space only is a value like any other for a directly applied modifier
 Langs    == {"", "eng", "fra"}
 Statuses == {"active", "blocked", "stopped", "archived"}
 Zones    == {"", "UTC", "Africa/Kigali"}
